@@ -1,9 +1,9 @@
 #!/bin/bash
 # runs every claimed quick check once; prints one line per property
-cd /verif
+cd ${VERIF_DIR:-/verif}
 for id in $(python3 -c "import json;print(' '.join(c['property_id'] for c in json.load(open('MANIFEST.json'))['checks']))"); do
   t0=$(date +%s)
-  out=$(timeout 3000 bin/vcheck run $id --tier ${1:-quick} 2>&1); rc=$?
+  out=$(timeout ${RUNALL_TIMEOUT:-3000} bin/vcheck run $id --tier ${1:-quick} 2>&1); rc=$?
   t1=$(date +%s)
   echo "$id rc=$rc $((t1-t0))s $(echo "$out" | grep -c '^KNOWN-FINDING') known | $(echo "$out" | grep '^OK\|^VIOLATION\|^INCONCLUSIVE' | head -3 | cut -c1-200 | tr '\n' ';')"
 done
